@@ -597,6 +597,61 @@ fn cli_conformance(ctx: &Ctx) {
             }
         }
     }
+    // conforming files of extreme shapes (made by the specification) through the shipped tool into every kind of sink:
+    // the EMPTY plaintext (a single final record of length 0), one byte, one-byte records, an exact chunk. After exit 0
+    // the sink holds exactly the plaintext - in particular an output FILE exists and is empty for the empty plaintext,
+    // whatever the path held before
+    {
+        let alice = Ident::new("alice", "apw", &mut rng);
+        let bob = Ident::new("bob", "bpw", &mut rng);
+        wd.write("shape-kr.txt", keyring_text(&[(&alice, true), (&bob, true)]).as_bytes());
+        let shapes: Vec<(&str, Vec<u8>, Vec<usize>)> = vec![
+            ("empty plaintext", vec![], vec![0]),
+            ("one byte", vec![0x41], vec![1]),
+            ("three one-byte records", b"abc".to_vec(), vec![1, 1, 1]),
+            ("exactly one full chunk", rng.bytes(65536), vec![65536]),
+            ("full chunk then empty final record", rng.bytes(65536), vec![65536, 0]),
+        ];
+        for (si, (shape, pt, chunking)) in shapes.iter().enumerate() {
+            let kf = refspec::encode_key_file(&alice.sk, &alice.pk, &bob.pk, &rng.arr32(), &rng.arr32(), pt, chunking).unwrap();
+            let pf = refspec::encode_pass_file(b"shape-pw", &rng.arr32(), pt, chunking);
+            wd.write(&format!("shape{}.k.ktl", si), &kf);
+            wd.write(&format!("shape{}.p.ktl", si), &pf);
+            for keymode in [true, false] {
+                for sink in ["stdout", "fresh -o path", "-o path holding longer content", "-o path holding shorter content"] {
+                    if sink.ends_with("shorter content") && pt.len() < 2 {
+                        continue;
+                    }
+                    let inp = format!("shape{}.{}.ktl", si, if keymode { "k" } else { "p" });
+                    let outp = wd.file(&format!("shape{}-{}-{}.out", si, keymode, sink.len()));
+                    let _ = std::fs::remove_file(&outp);
+                    let os = outp.to_str().unwrap().to_string();
+                    let mut a: Vec<&str> = if keymode { vec!["decrypt", &inp, "-t", "bob", "-k", "shape-kr.txt", "--env-pass"] } else { vec!["password", "decrypt", &inp, "--env-pass"] };
+                    if sink != "stdout" {
+                        a.push("-o");
+                        a.push(&os);
+                    }
+                    if sink.ends_with("longer content") {
+                        std::fs::write(&outp, vec![0x33u8; pt.len() + 4096]).unwrap();
+                    } else if sink.ends_with("shorter content") {
+                        std::fs::write(&outp, vec![0x44u8; 1]).unwrap();
+                    }
+                    let o = Cmd::new(&wd.path, &a).pass(if keymode { "bpw" } else { "shape-pw" }).run();
+                    ctx.eval();
+                    let got: Option<Vec<u8>> = if sink == "stdout" { Some(o.stdout.clone()) } else { std::fs::read(&outp).ok() };
+                    if o.exit == Exit::Timeout {
+                        ctx.inconclusive("C06 cli: timeout");
+                    } else if o.exit == Exit::Code(0) && got.as_deref() == Some(&pt[..]) {
+                        ctx.seen("cli decrypts a conforming file of extreme shape to exactly its plaintext in every sink");
+                        ctx.distinct(&format!("cli|shape|{}|{}|{}", shape, keymode, sink));
+                    } else {
+                        ctx.violation("C06:cli:conforming-file-of-extreme-shape-not-decrypted-to-exactly-its-plaintext", json!({"shape": shape, "mode": if keymode { "key" } else { "password" }, "sink": sink, "exit": o.exit.describe(), "stderr": o.stderr_s(),
+                            "output": match &got { None => json!("no output file exists"), Some(g) => json!({"len": g.len()}) }, "want_len": pt.len()}));
+                    }
+                }
+            }
+        }
+    }
     let pws: Vec<String> = vec!["plain".into(), "trailing space ".into(), " leading".into(), "tab\t".into(), "nl\n".into(), "ideographic\u{3000}".into(), "".into(), "  ".into(), "p\u{e4}ss".into()];
     let wdp = &wd;
     let pt = rng.bytes(65536 + 321);
@@ -756,6 +811,7 @@ pub fn run(ctx: &Ctx) {
     ctx.require("cli decrypts a short-chunk", 12);
     ctx.require("file left at -o conforms exactly (path holding longer content)", 6);
     ctx.require("cli decrypts the repository fixture", 4);
+    ctx.require("cli decrypts a conforming file of extreme shape", 30);
     ctx.require("encryptor==spec key mode", 20);
     ctx.require("non-canonical public key encodings", 60);
     ctx.require("encryptor==spec password mode", 10);
